@@ -80,7 +80,7 @@ Proof. destruct Hk as (_ & _ & H & _). apply H. Qed.
 Lemma peek_eview (s : store) : WF s -> peek s = eview s !! 0.
 Proof. intros H. rewrite (eview_lookup s 0 H). reflexivity. Qed.
 
-Theorem pq_peek : pq_peek_stmt keq hash ple.
+Theorem pq_peek_thm : pq_peek_stmt keq hash ple.
 Proof.
   intros Hk Ho s (HWF & Hf & Hord). specialize (Hord eq_refl).
   rewrite (peek_eview s HWF).
@@ -125,7 +125,7 @@ Lemma WF_smap_lt (s : store) i e : WF s -> smap s !! i = Some e -> i < ssize s.
 Proof. intros (Hm & _) H. apply lookup_lt_Some in H. lia. Qed.
 
 (** ** change_priority, change_priority_by *)
-Theorem pq_change_priority : pq_change_priority_stmt keq hash ple.
+Theorem pq_change_priority_thm : pq_change_priority_stmt keq hash ple.
 Proof.
   intros Hk Ho o s k p Hinv. pose proof Hinv as (HWF & Hf & Hord).
   unfold PQ.pq_change_priority, change_priority.
@@ -143,7 +143,7 @@ Proof.
     split; [lia|done].
 Qed.
 
-Theorem pq_change_priority_by : pq_change_priority_by_stmt keq hash ple.
+Theorem pq_change_priority_by_thm : pq_change_priority_by_stmt keq hash ple.
 Proof.
   intros Hk Ho o s k g Hinv. pose proof Hinv as (HWF & Hf & Hord).
   unfold PQ.pq_change_priority_by, change_priority_by.
@@ -216,7 +216,7 @@ Qed.
 Lemma set_size_id (s : store) n : ssize s = S n -> set_size (set_size s n) (S n) = s.
 Proof. destruct s. cbn. intros ->. reflexivity. Qed.
 
-Theorem pq_push : pq_push_stmt keq hash ple.
+Theorem pq_push_thm : pq_push_stmt keq hash ple.
 Proof.
   intros Hk Ho o s k p Hinv. pose proof Hinv as (HWF & Hf & Hord).
   unfold push.
@@ -305,7 +305,7 @@ Proof.
     exists i. rewrite Hm2. done.
 Qed.
 
-Theorem pq_pop : pq_pop_stmt keq hash ple.
+Theorem pq_pop_thm : pq_pop_stmt keq hash ple.
 Proof.
   intros Hk Ho o s (HWF & Hf & Hord).
   destruct (pop_sim s HWF Hf) as (out & s' & t & Hr & HWF' & Hf' & Hab & Htk & Hpk & Hout).
@@ -318,7 +318,7 @@ Proof.
 Qed.
 
 (** ** remove *)
-Theorem pq_remove : pq_remove_stmt keq hash ple.
+Theorem pq_remove_thm : pq_remove_stmt keq hash ple.
 Proof.
   intros Hk Ho o s k Hinv. pose proof Hinv as (HWF & Hf & Hord).
   unfold PQ.pq_remove. pose proof (remove_ok Hk s k HWF) as Hrm.
@@ -392,7 +392,7 @@ Proof.
   - exists None, s1. splits; done.
 Qed.
 
-Theorem pq_pop_if : pq_pop_if_stmt keq hash ple.
+Theorem pq_pop_if_thm : pq_pop_if_stmt keq hash ple.
 Proof.
   intros Hk Ho o s f Hpf Hinv. pose proof Hinv as (HWF & Hf & Hord).
   destruct (decide (ssize s = 0)) as [Hz|Hnz].
@@ -435,13 +435,13 @@ Proof. unfold get_priority, get. destruct (gio (smap s) k); reflexivity. Qed.
 Lemma pq_inv_set_ticks o (s : store) t : pq_inv o s -> pq_inv o (set_ticks s t).
 Proof. intros H; exact H. Qed.
 
-Theorem pq_push_dir : pq_push_dir_stmt keq hash ple.
+Theorem pq_push_dir_thm : pq_push_dir_stmt keq hash ple.
 Proof.
   intros Hk Ho dir o s k p Hinv. pose proof Hinv as (HWF & Hf & Hord).
-  pose proof (pq_push Hk Ho o s k p Hinv) as Hpush.
+  pose proof (pq_push_thm Hk Ho o s k p Hinv) as Hpush.
   destruct (gio (smap s) k) as [i|] eqn:Hg.
   - destruct (gio_some Hk _ _ _ Hg) as (e & He & Hke).
-    pose proof (pq_push Hk Ho o (set_ticks s (S (ticks s))) k p
+    pose proof (pq_push_thm Hk Ho o (set_ticks s (S (ticks s))) k p
                   (pq_inv_set_ticks o s _ Hinv)) as Hpush1.
     change (smap (set_ticks s (S (ticks s)))) with (smap s) in Hpush1.
     change (ssize (set_ticks s (S (ticks s)))) with (ssize s) in Hpush1.
@@ -489,7 +489,7 @@ Proof.
   rewrite <- Hyc2, <- Hyp2. exact (Hh c yc yp Hc Hyc Hyp).
 Qed.
 
-Theorem pq_peek_mut : pq_peek_mut_stmt keq hash ple.
+Theorem pq_peek_mut_thm : pq_peek_mut_stmt keq hash ple.
 Proof.
   intros Hk Ho o s u Hu Hinv. pose proof Hinv as (HWF & Hf & Hord).
   unfold peek_mut.
@@ -509,7 +509,7 @@ Proof.
 Qed.
 
 (** ** heap_build and the operations that end with it *)
-Theorem pq_build : pq_build_stmt keq hash ple.
+Theorem pq_build_thm : pq_build_stmt keq hash ple.
 Proof.
   intros Hk Ho s (HWF & Hf & _).
   destruct (heap_build_sim' s HWF Hf)
@@ -526,7 +526,7 @@ Lemma pq_build_size (Hk : keq_ok keq hash) (Ho : ord_ok ple) (s : store) :
   exists s', heap_build ple s = Ok s' /\ pq_inv true s' /\ smap s' = smap s /\
     ssize s' = ssize s /\ ticks s' <= ticks s + 4 * ssize s.
 Proof.
-  intros Hinv. destruct (pq_build Hk Ho s Hinv) as (s' & Hr & Hinv' & Hm & Htk).
+  intros Hinv. destruct (pq_build_thm Hk Ho s Hinv) as (s' & Hr & Hinv' & Hm & Htk).
   exists s'. splits; try done; try apply Hinv'.
   destruct Hinv as ((L & _) & _). destruct Hinv' as ((L' & _) & _). congruence.
 Qed.
@@ -604,7 +604,7 @@ Proof.
     destruct b; [rewrite <- app_assoc|]; done.
 Qed.
 
-Theorem pq_retain : pq_retain_stmt keq hash ple.
+Theorem pq_retain_thm : pq_retain_stmt keq hash ple.
 Proof.
   intros Hk Ho s f Hpf (HWF & Hf & _).
   unfold pq_retain_mut, retain_mut.
@@ -653,7 +653,7 @@ Proof.
     destruct (IH _ HWF1) as (H1 & H2 & H3 & H4). done.
 Qed.
 
-Theorem pq_from_vec : pq_from_vec_stmt keq hash ple.
+Theorem pq_from_vec_thm : pq_from_vec_stmt keq hash ple.
 Proof.
   intros Hk Ho l. unfold PQ.pq_from_vec, from_vec.
   set (s0 := empty_store (N.of_nat (length l)) : store).
@@ -686,7 +686,7 @@ Qed.
 Lemma append_list_nil (m : list (I * P)) : append_list keq hash m [] = m.
 Proof. reflexivity. Qed.
 
-Theorem pq_append : pq_append_stmt keq hash ple.
+Theorem pq_append_thm : pq_append_stmt keq hash ple.
 Proof.
   intros Hk Ho s o (HWFs & Hfs & _) (HWFo & Hfo & _).
   unfold PQ.pq_append, append.
@@ -733,4 +733,217 @@ Proof.
       rewrite Hsz. rewrite Htk1 in Htk'. exact Htk'.
 Qed.
 
+(** ** serde visit_seq, FromIterator, Extend *)
+Lemma WF_set_entry (Hk : keq_ok keq hash) (s : store) i e e' :
+  WF s -> smap s !! i = Some e -> keq e'.1 e.1 = true ->
+  WF (set_map s (<[i := e']> (smap s))).
+Proof.
+  intros HWF He Hke.
+  destruct (WF_slot_qp s i HWF (WF_smap_lt s i e HWF He)) as [pos Hq].
+  apply (set_entry_ok Hk s i e e' pos HWF He Hq Hke).
+Qed.
+
+Lemma visit_one_ok (Hk : keq_ok keq hash) (s : store) e : WF s ->
+  WF (visit_one keq hash s e) /\
+  smap (visit_one keq hash s e) = map_insert keq hash (smap s) e.1 e.2 /\
+  ticks (visit_one keq hash s e) = ticks s /\ fuse (visit_one keq hash s e) = fuse s.
+Proof.
+  intros HWF. unfold visit_one, map_insert.
+  destruct (gio (smap s) e.1) as [i|] eqn:Hg.
+  - destruct (gio_some Hk _ _ _ Hg) as (e0 & He0 & Hke). rewrite He0.
+    splits; try done. apply (WF_set_entry Hk s i e0); [done|done|]. apply (keq_refl Hk).
+  - destruct (push_entry_ok Hk s e HWF Hg) as [HWF1 _].
+    splits; try done. destruct e; done.
+Qed.
+
+Lemma visit_fold_ok (Hk : keq_ok keq hash) l : forall s : store, WF s ->
+  WF (fold_left (visit_one keq hash) l s) /\
+  smap (fold_left (visit_one keq hash) l s) =
+    fold_left (fun acc e => map_insert keq hash acc e.1 e.2) l (smap s) /\
+  ticks (fold_left (visit_one keq hash) l s) = ticks s /\
+  fuse (fold_left (visit_one keq hash) l s) = fuse s.
+Proof.
+  induction l as [|e l IH]; intros s HWF; [done|]. cbn [fold_left].
+  destruct (visit_one_ok Hk s e HWF) as (H1 & H2 & H3 & H4).
+  destruct (IH _ H1) as (G1 & G2 & G3 & G4).
+  rewrite G2, G3, G4, H2, H3, H4. done.
+Qed.
+
+Theorem pq_deserialize_thm : pq_deserialize_stmt keq hash ple.
+Proof.
+  intros Hk Ho l. unfold PQ.pq_deserialize, visit_seq.
+  set (s0 := empty_store (N.of_nat (length l)) : store).
+  destruct (visit_fold_ok Hk l s0) as (HWF & Hm & Htk & Hfu).
+  { apply (empty_store_inv _). }
+  destruct (pq_build_size Hk Ho (fold_left (visit_one keq hash) l s0))
+    as (s' & Hr & Hinv' & Hm' & Hsz & Htk').
+  { split; [done|]. split; [done|done]. }
+  exists s'. split; [done|]. split; [done|]. split; [rewrite Hm', Hm; done|].
+  rewrite Htk in Htk'. cbn in Htk'. lia.
+Qed.
+
+Lemma extend_one_ok (Hk : keq_ok keq hash) (s : store) e : WF s ->
+  WF (extend_one keq hash s e) /\
+  smap (extend_one keq hash s e) =
+    match gio (smap s) e.1 with Some i => <[i := e]> (smap s) | None => smap s ++ [e] end /\
+  ticks (extend_one keq hash s e) = ticks s /\ fuse (extend_one keq hash s e) = fuse s /\
+  cap (extend_one keq hash s e) = cap s.
+Proof.
+  intros HWF. unfold extend_one.
+  destruct (gio (smap s) e.1) as [i|] eqn:Hg.
+  - destruct (gio_some Hk _ _ _ Hg) as (e0 & He0 & Hke).
+    splits; try done. apply (WF_set_entry Hk s i e0); [done|done|]. by apply (keq_sym Hk).
+  - destruct (push_entry_ok Hk s e HWF Hg) as [HWF1 _]. done.
+Qed.
+
+Lemma extend_entries_ok (Hk : keq_ok keq hash) l : forall s : store, WF s -> fuse s = None ->
+  exists s', extend_entries keq hash s l = Ok s' /\ WF s' /\ fuse s' = None /\
+    smap s' = extend_list keq hash (smap s) l /\ ticks s' = ticks s.
+Proof.
+  induction l as [|e l IH]; intros s HWF Hf; cbn [extend_entries];
+    rewrite (cb_nofuse s Hf); cbn [mbind res_bind rbind].
+  - exists s. done.
+  - destruct (extend_one_ok Hk s e HWF) as (H1 & H2 & H3 & H4 & _).
+    destruct (IH _ H1 ltac:(congruence)) as (s' & Hr & HWF' & Hf' & Hm' & Htk').
+    exists s'. splits; try done; [|congruence].
+    rewrite Hm', H2. unfold extend_list. cbn [fold_left]. done.
+Qed.
+
+Theorem pq_from_iter_thm : pq_from_iter_stmt keq hash ple alloc_limit.
+Proof.
+  intros Hk Ho l h Hh. unfold PQ.pq_from_iter, from_iter, with_capacity.
+  rewrite decide_True by done. cbn [mbind res_bind rbind].
+  change (set_fuse (empty_store h.1) None) with (empty_store h.1 : store).
+  destruct (extend_entries_ok Hk l (empty_store h.1)) as (s1 & Hr1 & HWF1 & Hf1 & Hm1 & Htk1).
+  { apply (empty_store_inv _). } { done. }
+  rewrite Hr1. cbn [mbind res_bind rbind].
+  destruct (pq_build_size Hk Ho s1) as (s' & Hr & Hinv' & Hm' & Hsz & Htk').
+  { split; [done|]. split; [done|done]. }
+  exists s'. split; [done|]. split; [done|]. split; [rewrite Hm', Hm1; done|].
+  rewrite Htk1 in Htk'. cbn in Htk'. lia.
+Qed.
+
+Lemma push_all_ok (Hk : keq_ok keq hash) (Ho : ord_ok ple) o l : forall s : store, pq_inv o s ->
+  exists s', push_all keq hash ple s l = Ok s' /\ pq_inv o s' /\
+    smap s' = push_list keq hash (smap s) l.
+Proof.
+  induction l as [|e l IH]; intros s Hinv; cbn [push_all];
+    pose proof Hinv as (HWF & Hf & _);
+    rewrite (cb_nofuse s Hf); cbn [mbind res_bind rbind].
+  - exists s. done.
+  - destruct (pq_push_thm Hk Ho o s e.1 e.2 Hinv) as (out & s1 & Hr1 & Hinv1 & _ & Hcase).
+    rewrite Hr1. cbn [mbind res_bind rbind].
+    destruct (IH s1 Hinv1) as (s' & Hr & Hinv' & Hm').
+    exists s'. split; [done|]. split; [done|]. rewrite Hm'.
+    unfold push_list. cbn [fold_left]. f_equal.
+    destruct (gio (smap s) e.1) as [i|].
+    + destruct Hcase as (e0 & He0 & _ & ->). rewrite He0. done.
+    + destruct Hcase as (_ & ->). destruct e; done.
+Qed.
+
+Theorem pq_extend_thm : pq_extend_stmt keq hash ple alloc_limit.
+Proof.
+  intros Hk Ho o s l h Hinv Hh. pose proof Hinv as (HWF & Hf & Hord).
+  unfold PQ.pq_extend, extend_with, reserve.
+  rewrite decide_True by done. cbn [mbind res_bind rbind].
+  set (s1 := set_cap s _).
+  assert (Hinv1 : pq_inv o s1) by exact Hinv.
+  assert (Hgen : forall rb : bool, exists s',
+    (if rb then s2 ← extend_entries keq hash s1 l; heap_build ple s2
+     else push_all keq hash ple s1 l) = Ok s' /\
+    (pq_inv true s' \/ (pq_inv o s' /\ smap s' = push_list keq hash (smap s) l)) /\
+    (smap s' = extend_list keq hash (smap s) l \/ smap s' = push_list keq hash (smap s) l)).
+  { intros [|].
+    - destruct (extend_entries_ok Hk l s1 HWF Hf) as (s2 & Hr2 & HWF2 & Hf2 & Hm2 & Htk2).
+      rewrite Hr2. cbn [mbind res_bind rbind].
+      destruct (pq_build_size Hk Ho s2) as (s' & Hr & Hinv' & Hm' & Hsz & Htk').
+      { split; [done|]. split; [done|done]. }
+      exists s'. split; [done|]. split; [left; done|]. left. rewrite Hm', Hm2. done.
+    - destruct (push_all_ok Hk Ho o l s1 Hinv1) as (s' & Hr & Hinv' & Hm').
+      exists s'. split; [done|]. split; right; done. }
+  cbv zeta. apply Hgen.
+Qed.
+
+(** ** the two strategies of extend agree on keys and priorities *)
+Lemma key_match_same (Hk : keq_ok keq hash) (k : I) (a b : I * P) :
+  keq a.1 b.1 = true -> key_match keq hash k a = key_match keq hash k b.
+Proof.
+  intros Hab. unfold key_match.
+  pose proof Hk as (_ & _ & _ & Hh). rewrite (Hh _ _ Hab). f_equal.
+  destruct (keq a.1 k) eqn:H1, (keq b.1 k) eqn:H2; try done.
+  - rewrite <- H2. symmetry. eapply (keq_trans Hk); [apply (keq_sym Hk), Hab|done].
+  - rewrite <- H1. eapply (keq_trans Hk); eauto.
+Qed.
+
+Lemma gio_same_kp (Hk : keq_ok keq hash) (m1 m2 : list (I * P)) k :
+  same_kp keq m1 m2 -> gio m1 k = gio m2 k.
+Proof.
+  unfold get_index_of. induction 1 as [|a b m1 m2 [Hab _] _ IH]; [done|].
+  cbn [find_idx]. rewrite (key_match_same Hk k a b Hab), IH. done.
+Qed.
+
+Theorem extend_push_same_thm : @extend_push_same_stmt I P keq hash.
+Proof.
+  intros Hk m l _.
+  assert (Hgen : forall m1 m2, same_kp keq m1 m2 ->
+            same_kp keq (extend_list keq hash m1 l) (push_list keq hash m2 l)).
+  { induction l as [|e l IH]; intros m1 m2 Hs; [done|].
+    unfold extend_list, push_list. cbn [fold_left]. apply IH.
+    rewrite <- (gio_same_kp Hk m1 m2 e.1 Hs).
+    destruct (gio m1 e.1) as [i|] eqn:Hg.
+    - destruct (gio_some Hk _ _ _ Hg) as (e0 & He0 & Hke).
+      destruct (Forall2_lookup_l _ _ _ _ _ Hs He0) as (old & Hold & Hk0 & _).
+      rewrite Hold. apply Forall2_insert; [done|]. split; [|done]. cbn [fst].
+      eapply (keq_trans Hk); [apply (keq_sym Hk), Hke|done].
+    - apply Forall2_app; [done|]. constructor; [|constructor].
+      split; [apply (keq_refl Hk)|done]. }
+  apply Hgen. clear Hgen. induction m as [|a m IH]; constructor; [|done].
+  split; [apply (keq_refl Hk)|done].
+Qed.
+
+(** ** into_sorted_vec *)
+Lemma pop_all_sim fuel : forall (s : store) acc, WF s -> fuse s = None -> ssize s < fuel ->
+  exists s', pop_all ple fuel s acc = Ok (acc ++ (a_pop_all pr ple fuel (eview s)).1, s').
+Proof.
+  induction fuel as [|fuel IH]; intros s acc HWF Hf Hfuel; [lia|].
+  cbn [pop_all a_pop_all].
+  destruct (pop_sim s HWF Hf) as (out & s1 & t & Hr & HWF1 & Hf1 & Hab & Htk & Hpk & Hout).
+  rewrite Hr, Hab. cbn [mbind res_bind rbind].
+  destruct out as [e|].
+  - destruct Hout as (Hsz & Hpos & _).
+    destruct (IH s1 (acc ++ [e]) HWF1 Hf1 ltac:(lia)) as [s' Hs']. rewrite Hs'.
+    destruct (a_pop_all snd ple fuel (eview s1)) as [out' t']. cbn [fst snd].
+    exists s'. rewrite <- app_assoc. done.
+  - exists s1. cbn [fst]. rewrite app_nil_r. done.
+Qed.
+
+Theorem pq_into_sorted_vec_thm : pq_into_sorted_vec_stmt keq hash ple.
+Proof.
+  intros Hk Ho s (HWF & Hf & Hord). unfold into_sorted_vec.
+  destruct (pop_all_sim (S (ssize s)) s [] HWF Hf ltac:(lia)) as [s' Hs'].
+  rewrite Hs'. cbn [app]. eexists _, s'. split; [reflexivity|].
+  pose proof (a_pop_all_ok snd ple Ho (eview s) (Hord eq_refl)) as H.
+  rewrite (eview_length s HWF) in H. cbv zeta in H. destruct H as [H1 H2].
+  split; [|exact H2]. rewrite H1. apply (eview_perm s HWF).
+Qed.
+
 End PQOps.
+
+Print Assumptions pq_peek_thm.
+Print Assumptions pq_push_thm.
+Print Assumptions pq_pop_thm.
+Print Assumptions pq_change_priority_thm.
+Print Assumptions pq_change_priority_by_thm.
+Print Assumptions pq_remove_thm.
+Print Assumptions pq_pop_if_thm.
+Print Assumptions pq_push_dir_thm.
+Print Assumptions pq_peek_mut_thm.
+Print Assumptions pq_build_thm.
+Print Assumptions pq_retain_thm.
+Print Assumptions pq_from_vec_thm.
+Print Assumptions pq_append_thm.
+Print Assumptions pq_deserialize_thm.
+Print Assumptions pq_from_iter_thm.
+Print Assumptions pq_extend_thm.
+Print Assumptions extend_push_same_thm.
+Print Assumptions pq_into_sorted_vec_thm.
